@@ -383,3 +383,23 @@ Theorem canonical_individuals_sorted_remap : forall ns inds ns' inds',
     ns' = map (fun nd => mkN (n_flags nd) (n_time nd) (n_pop nd) (remap_ref idmap (n_ind nd)) (n_md nd)) ns /\
     (forall p r, getz inds p = Ok r -> getz sorted (idmap p) = Ok (p, r)).
 Proof. exact sort_individuals_canonical_remap. Qed.
+
+(* (g, individuals) no extra hypothesis: every listed node of T is found at [cover_id] referring
+   to an individual with the flags, location and metadata of the individual it referred to in T
+   (NULL stays NULL) — whether union identified it through a shared node (then it is self's row)
+   or appended it.  Open for the full inverse law: that two private parts do not both carry
+   the same individual (it would be appended once more), the parents column, the recomputed
+   mutation parents and site ids; these stay with the `inverse` correspondence family. *)
+Theorem subset_union_inverse_individuals_partial :
+  forall T A B keep_unreferenced no_change_populations check_shared add_populations S O U,
+  refs_in_range T = true ->
+  NoDup A -> NoDup B ->
+  subset T A keep_unreferenced no_change_populations = Ok S ->
+  subset T B keep_unreferenced no_change_populations = Ok O ->
+  union S O (mapping_of A B) check_shared add_populations = Ok U ->
+  forall u r, listed A u || listed B u = true -> getz (t_nodes T) u = Ok r ->
+    exists r', getz (t_nodes U) (cover_id A B u) = Ok r' /\
+      (n_ind r = NULL -> n_ind r' = NULL) /\
+      (forall irow, getz (t_individuals T) (n_ind r) = Ok irow ->
+         exists irow', getz (t_individuals U) (n_ind r') = Ok irow' /\ ind_core irow' = ind_core irow).
+Proof. exact subset_union_inverse_individuals_lemma. Qed.
